@@ -13,8 +13,9 @@ Qed.
 
 Lemma commit_eqb_spec a b : reflect (a = b) (commit_eqb a b).
 Proof.
-  destruct a as [i1 r1 l1 h1 e1], b as [i2 r2 l2 h2 e2]. unfold commit_eqb. cbn [c_id c_root c_lo c_hi c_exec].
+  destruct a as [i1 s1 r1 l1 h1 e1], b as [i2 s2 r2 l2 h2 e2]. unfold commit_eqb. cbn [c_id c_src c_root c_lo c_hi c_exec].
   destruct (N.eqb_spec i1 i2) as [->|H]; [|constructor; congruence].
+  destruct (N.eqb_spec s1 s2) as [->|H]; [|constructor; congruence].
   destruct (N.eqb_spec r1 r2) as [->|H]; [|constructor; congruence].
   destruct (N.eqb_spec l1 l2) as [->|H]; [|constructor; congruence].
   destruct (N.eqb_spec h1 h2) as [->|H]; [|constructor; congruence].
@@ -204,6 +205,7 @@ Lemma validated_commits_nodup sup dest fchain o k :
 Proof.
   intros [NDk _] Hv. unfold validate in Hv. apply andb_prop in Hv. destruct Hv as [Hv _].
   apply andb_prop in Hv. destruct Hv as [Hv _].
+  apply andb_prop in Hv. destruct Hv as [Hv _].
   apply andb_prop in Hv. destruct Hv as [_ Hs].
   destruct (entries_cases k _ NDk) as [->|[l [Hi ->]]]; [constructor|].
   unfold validate_seqnums in Hs. rewrite forallb_forall in Hs. specialize (Hs _ Hi). cbn [snd] in Hs.
@@ -214,6 +216,7 @@ Lemma validated_msgs_nodup sup dest fchain o k :
   wf_obs o -> validate sup dest fchain o = true -> NoDup (map snd (entries k (o_msgs o))).
 Proof.
   intros [_ [NDk [NDl _]]] Hv. unfold validate in Hv. apply andb_prop in Hv. destruct Hv as [Hv _].
+  apply andb_prop in Hv. destruct Hv as [Hv _].
   apply andb_prop in Hv. destruct Hv as [_ Hm].
   destruct (entries_cases k _ NDk) as [->|[l [Hi ->]]]; [constructor|].
   unfold validate_msg_keys in Hm. rewrite forallb_forall in Hm. specialize (Hm _ Hi). cbn [snd] in Hm.
@@ -251,6 +254,7 @@ Proof.
   { intros V proj Hsub. destruct (unknown_key fchain proj aos) eqn:E; [|reflexivity]. exfalso. unfold unknown_key in E.
     apply existsb_exists in E. destruct E as [[o ob] [Hi E]]. apply existsb_exists in E. destruct E as [k [Hk E]].
     cbn [snd] in *. destruct (Hv o ob Hi) as [_ Hval]. unfold validate in Hval.
+    apply andb_prop in Hval. destruct Hval as [Hval _].
     apply andb_prop in Hval. destruct Hval as [_ Hc]. unfold validate_chains in Hc.
     rewrite forallb_forall in Hc. rewrite (Hc k (Hsub ob k Hk)) in E. discriminate. }
   repeat split; apply H; intros ob k Hk; rewrite !in_app_iff; tauto.
@@ -274,37 +278,60 @@ Definition msgs_at (k : N) (ob : obs) : list msg := map snd (entries k (o_msgs o
 Definition tok_at (c s : N) (i : nat) (ob : obs) : list tok :=
   match nth_error (entries s (entries c (o_tokens ob))) i with Some t => [t] | None => [] end.
 
-(* ---------- C07_commit ---------- *)
+(* ---------- C07_commit (after the repair of F75: threshold of the destination, key = source chain) ---------- *)
+Lemma dest_fchain_in dest fchain k f :
+  In (k, f) (dest_fchain dest fchain) <-> In k (keys fchain) /\ f = f_dest dest fchain.
+Proof.
+  unfold dest_fchain, keys. rewrite in_map_iff. split.
+  - intros [[k' f'] [E Hi]]. cbn in E. inversion E; subst. split; [|reflexivity]. apply in_map_iff. now exists (k, f').
+  - intros [Hk ->]. apply in_map_iff in Hk. destruct Hk as [[k' f'] [E Hi]]. cbn in E. subst k'. now exists (k, f').
+Qed.
+
+Lemma validated_commit_key sup dest fchain o k x :
+  validate sup dest fchain o = true -> In x (commits_at k o) -> c_src x = k.
+Proof.
+  intros Hv Hx. unfold validate in Hv. apply andb_prop in Hv. destruct Hv as [_ Hk].
+  unfold validate_commit_keys in Hk. rewrite forallb_forall in Hk.
+  unfold commits_at, entries in Hx. apply in_flat_map in Hx. destruct Hx as [[k' l] [Hi Hx]]. cbn [fst snd] in Hx.
+  destruct (N.eqb_spec k' k) as [->|]; [|destruct Hx]. specialize (Hk _ Hi). cbn [fst snd] in Hk.
+  rewrite forallb_forall in Hk. now apply N.eqb_eq, Hk.
+Qed.
+
 Theorem merge_commits_sound sup dest fchain aos r k l x :
   NoDup (map fst aos) -> validated sup dest fchain aos ->
-  merge_commits fchain aos = Ok r -> In (k, l) r -> In x l ->
-  exists f, In (k, f) fchain /\ supported_by (commits_at k) (f_plus_1 f) aos x /\
-            (forall o ob, In (o, ob) aos -> NoDup (commits_at k ob)).
+  merge_commits dest fchain aos = Ok r -> In (k, l) r -> In x l ->
+  In k (keys fchain) /\ c_src x = k /\
+  supported_by (commits_at k) (f_plus_1 (f_dest dest fchain)) aos x /\
+  (forall o ob, In (o, ob) aos -> NoDup (commits_at k ob)).
 Proof.
   intros ND Hv Hm Hk Hx. unfold merge_commits in Hm.
   destruct (unknown_key fchain o_commits aos); [discriminate|]. inversion Hm; subst r; clear Hm.
-  apply per_chain_in in Hk. destruct Hk as [f [Hf [-> _]]].
+  apply per_chain_in in Hk. destruct Hk as [f [Hf [-> _]]]. apply dest_fchain_in in Hf. destruct Hf as [Hkk ->].
   assert (Hnd : forall a, In a aos -> NoDup (commits_at k (snd a))).
   { intros [o ob] Hi. destruct (Hv o ob Hi) as [Hw Hval]. eapply validated_commits_nodup; eassumption. }
-  exists f. split; [exact Hf|]. split.
+  split; [exact Hkk|]. split; [|split].
+  - apply (valid_spec commit_eqb commit_eqb_spec) in Hx. destruct Hx as [Hx _].
+    change (commit_items k aos) with (items_of (commits_at k) aos) in Hx.
+    apply items_of_in in Hx. destruct Hx as [o [ob [Hi Hin]]]. destruct (Hv o ob Hi) as [_ Hval].
+    eapply validated_commit_key; eassumption.
   - eapply (valid_supported commit_eqb commit_eqb_spec (commits_at k)); eassumption.
   - intros o ob Hi. apply (Hnd (o, ob) Hi).
 Qed.
 
-Theorem merge_commits_complete sup dest fchain aos k f x rs :
+Theorem merge_commits_complete sup dest fchain aos k x rs :
   NoDup (map fst aos) -> validated sup dest fchain aos ->
-  In (k, f) fchain ->
+  In k (keys fchain) ->
   NoDup rs -> rs <> [] -> (forall o, In o rs -> exists ob, In (o, ob) aos /\ In x (commits_at k ob)) ->
-  (f_plus_1 f <= N.of_nat (length rs))%N ->
-  exists r l, merge_commits fchain aos = Ok r /\ In (k, l) r /\ In x l.
+  (f_plus_1 (f_dest dest fchain) <= N.of_nat (length rs))%N ->
+  exists r l, merge_commits dest fchain aos = Ok r /\ In (k, l) r /\ In x l.
 Proof.
   intros ND Hv Hf NDr Hne Hrs Hthr. unfold merge_commits.
   destruct (validated_no_unknown _ _ _ _ Hv) as [Hu _]. rewrite Hu.
   assert (Hnd : forall a, In a aos -> NoDup (commits_at k (snd a))).
   { intros [o ob] Hi. destruct (Hv o ob Hi) as [Hw Hval]. eapply validated_commits_nodup; eassumption. }
   pose proof (supported_valid commit_eqb commit_eqb_spec (commits_at k) _ aos x rs ND Hnd NDr Hrs Hthr Hne) as Hx.
-  eexists. exists (valid commit_eqb (f_plus_1 f) (commit_items k aos)). split; [reflexivity|]. split; [|exact Hx].
-  apply per_chain_in. exists f. repeat split; [exact Hf|]. intros E. unfold commit_items in E.
+  eexists. exists (valid commit_eqb (f_plus_1 (f_dest dest fchain)) (commit_items k aos)). split; [reflexivity|]. split; [|exact Hx].
+  apply per_chain_in. exists (f_dest dest fchain). repeat split; [now apply dest_fchain_in|]. intros E. unfold commit_items in E.
   unfold items_of, commits_at in Hx. rewrite E in Hx. contradiction.
 Qed.
 
@@ -473,7 +500,7 @@ Definition any_unknown_key (fchain : list (N * Z)) (aos : list ao) : bool :=
 Theorem get_consensus_ok_except_known bigF dest fchain aos :
   any_unknown_key fchain aos = false -> (bigF <= Z.of_nat (length aos))%Z ->
   exists cs ms ts,
-    merge_commits fchain aos = Ok cs /\ merge_msgs fchain aos = Ok ms /\ merge_tokens fchain aos = Ok ts /\
+    merge_commits dest fchain aos = Ok cs /\ merge_msgs fchain aos = Ok ms /\ merge_tokens fchain aos = Ok ts /\
     get_consensus bigF dest fchain aos =
       Ok (mkMerged cs ms ts (merge_costly (f_dest dest fchain) aos) (merge_nonces (f_dest dest fchain) aos)).
 Proof.
@@ -511,6 +538,14 @@ Proof.
   intros H o ob Hi. rewrite forallb_forall in H. specialize (H _ Hi). cbn [fst snd] in H.
   apply andb_prop in H. destruct H as [H1 H2]. split; [now apply wf_obsb_sound|exact H2].
 Qed.
+Definition validated_nokeys (sup : N -> list N) (dest : N) (fchain : list (N * Z)) (aos : list ao) : Prop :=
+  forall o ob, In (o, ob) aos -> wf_obs ob /\ validate_nokeys (sup o) dest fchain ob = true.
+Lemma validated_nokeys_of_bool sup dest fchain aos :
+  forallb (fun a => wf_obsb (snd a) && validate_nokeys (sup (fst a)) dest fchain (snd a)) aos = true -> validated_nokeys sup dest fchain aos.
+Proof.
+  intros H o ob Hi. rewrite forallb_forall in H. specialize (H _ Hi). cbn [fst snd] in H.
+  apply andb_prop in H. destruct H as [H1 H2]. split; [now apply wf_obsb_sound|exact H2].
+Qed.
 Lemma validated_unfixed_of_bool sup dest fchain aos :
   forallb (fun a => wf_obsb (snd a) && validate_unfixed (sup (fst a)) dest fchain (snd a)) aos = true -> validated_unfixed sup dest fchain aos.
 Proof.
@@ -520,7 +555,7 @@ Qed.
 
 (* ---------- refutations (findings F13a, F13c, F13d, F13e) and non-vacuity ---------- *)
 Local Open Scope N_scope.
-Definition ex_c : commit := mkCommit 1 1 10 12 [11].
+Definition ex_c : commit := mkCommit 1 1 1 10 12 [11].
 Definition ex_m : msg := mkMsg 7 10 9.
 Definition ex_t : tok := mkTok true 3.
 Definition ex_obs : obs :=
@@ -552,6 +587,28 @@ Proof.
   split; [apply validated_unfixed_of_bool; vm_compute; reflexivity|].
   split; [vm_compute; reflexivity|].
   split; [now left|]. split; [now left|]. split; [now left|]. vm_compute. reflexivity.
+Qed.
+
+(* F75: before the repair (validateCommitReportKeys, destination threshold in mergeCommitObservations) a commit
+   report was agreed at the f of the chain key it was FILED under, whatever its SourceChain: with f(chain 2) = 1 two
+   oracles that do not read chain 2 - fewer than f(dest) + 1 = 3 - get a report of chain 1 agreed under key 2 *)
+Theorem merge_commits_unfixed_refuted :
+  exists sup dest fchain aos r k l x,
+    NoDup (map fst aos) /\ validated_nokeys sup dest fchain aos /\
+    (forall o ob, In (o, ob) aos -> ~ In k (sup o)) /\
+    merge_commits_unfixed fchain aos = Ok r /\ In (k, l) r /\ In x l /\ c_src x <> k /\
+    (N.of_nat (length (supporters commit_eqb (commits_at k) x aos)) < f_plus_1 (f_dest dest fchain))%N /\
+    merge_commits dest fchain aos = Ok [] /\
+    forallb (fun a => validate (sup (fst a)) dest fchain (snd a)) aos = false.
+Proof.
+  exists (fun _ => [1; 9]%N), 9%N, [(1%N, 2%Z); (2%N, 1%Z); (9%N, 2%Z)],
+         [(5%N, mkObs [(2%N, [mkCommit 7 1 666 5 6 []])] [] [] [] []); (6%N, mkObs [(2%N, [mkCommit 7 1 666 5 6 []])] [] [] [] [])],
+         [(2%N, [mkCommit 7 1 666 5 6 []])], 2%N, [mkCommit 7 1 666 5 6 []], (mkCommit 7 1 666 5 6 []).
+  split; [repeat constructor; cbn; intuition discriminate|].
+  split; [apply validated_nokeys_of_bool; vm_compute; reflexivity|].
+  split; [intros o ob _; cbn; intuition discriminate|].
+  split; [vm_compute; reflexivity|]. split; [now left|]. split; [now left|]. split; [cbn; discriminate|].
+  split; [vm_compute; reflexivity|]. split; vm_compute; reflexivity.
 Qed.
 
 (* F13c: before the repair a costly id repeated by one oracle was flagged at f = 1 *)
@@ -591,7 +648,7 @@ Qed.
 Theorem get_consensus_ok sup bigF dest fchain aos :
   validated sup dest fchain aos -> (bigF <= Z.of_nat (length aos))%Z ->
   exists cs ms ts,
-    merge_commits fchain aos = Ok cs /\ merge_msgs fchain aos = Ok ms /\ merge_tokens fchain aos = Ok ts /\
+    merge_commits dest fchain aos = Ok cs /\ merge_msgs fchain aos = Ok ms /\ merge_tokens fchain aos = Ok ts /\
     get_consensus bigF dest fchain aos =
       Ok (mkMerged cs ms ts (merge_costly (f_dest dest fchain) aos) (merge_nonces (f_dest dest fchain) aos)).
 Proof.
